@@ -43,11 +43,34 @@ def _ll_plus_sum(fn, target, listname, producer):
     return _relocate(new, v)
 
 
+def _mentions(node, dotted):
+    return any(T._dotted(n) == dotted for n in ast.walk(node))
+
+
+def _is_nan(node):
+    if T._dotted(node) in ("np.nan", "numpy.nan", "math.nan", "np.NaN"):
+        return True
+    return isinstance(node, ast.Call) and T._dotted(node.func) == "float" and len(node.args) == 1 \
+        and isinstance(node.args[0], ast.Constant) and str(node.args[0].value).lower() == "nan"
+
+
+def _one(cands, what):
+    if len(cands) != 1:
+        raise T.TranslationError("expected exactly one %s, found %d" % (what, len(cands)))
+    return cands[0]
+
+
 def _fit_assign(fn, i):
+    """The assignments to figure_of_merit in Fitness.__call__, by role (not by count):
+    0 = the likelihood-mode value (an expression over log_likelihood without sum / figure_of_merit),
+    2 = the chi-squared conversion (the one that reads figure_of_merit)."""
     al = T.assigns(fn, "figure_of_merit")
-    if len(al) != 3:
-        raise T.TranslationError("expected 3 assignments to figure_of_merit in Fitness.__call__, found %d" % len(al))
-    return al[i]
+    conv = [a for a in al if isinstance(a, ast.AugAssign) or _mentions(a.value, "figure_of_merit")]
+    if i == 2:
+        return _one(conv, "conversion `figure_of_merit = f(figure_of_merit)` in Fitness.__call__")
+    plain = [a for a in al if a not in conv and isinstance(a, ast.Assign) and _mentions(a.value, "log_likelihood")
+             and not any(isinstance(n, ast.Call) for n in ast.walk(a.value))]
+    return _one(plain, "likelihood-mode assignment `figure_of_merit = <log_likelihood>` in Fitness.__call__")
 
 
 def _chi2(fn):
@@ -60,12 +83,15 @@ def _chi2(fn):
 
 
 def _ps_assign(fn, i):
-    al = T.assigns(fn, "figure_of_merit")
-    if len(al) != 3:
-        raise T.TranslationError("expected 3 assignments to figure_of_merit in FitnessPySwarms.__call__, found %d" % len(al))
-    if i == 1 and T._dotted(al[1].value) != "np.nan":
-        raise T.TranslationError("FitException branch of FitnessPySwarms.__call__ no longer assigns np.nan")
-    return al[i]
+    """FitnessPySwarms.__call__ by role: 0 = value from log_posterior, 1 = nan in the FitException branch,
+    2 = the resample value."""
+    al = [a for a in T.assigns(fn, "figure_of_merit") if isinstance(a, ast.Assign)]
+    if i == 0:
+        return _one([a for a in al if _mentions(a.value, "log_posterior")], "`figure_of_merit = f(log_posterior)` in FitnessPySwarms.__call__")
+    if i == 1:
+        return _one([a for a in al if _is_nan(a.value)], "`figure_of_merit = nan` (FitException branch) in FitnessPySwarms.__call__")
+    return _one([a for a in al if _mentions(a.value, "self.resample_figure_of_merit")],
+                "`figure_of_merit = f(self.resample_figure_of_merit)` in FitnessPySwarms.__call__")
 
 
 SPECS = [
@@ -156,8 +182,86 @@ def traits(repo):
             raise T.TranslationError("check_log_likelihood: direct evaluation not of the shape instance_from_vector + likelihood")
     else:
         raise T.TranslationError("check_log_likelihood: log_likelihood_new comes from %s" % callee)
+    # nothing else may touch the history lists (truncation, clearing in __getstate__, ...): fail closed
+    allowed = _history_nodes(fn) | _history_nodes(init)
+    _history_untouched_elsewhere(tree, "Fitness", allowed)
+    _history_untouched_elsewhere(tree2, "FitnessPySwarms", _history_nodes(fn2))
     return {"impl_alias_params": alias, "impl_inplace_chi2": inplace, "impl_pyswarms_history": pshist,
             "impl_ctor_history_late": late[0], "impl_ctor_via_call": via_call}
+
+
+SEARCH_DIR = "autofit/non_linear/search"
+HIST_ATTRS = ("parameters_history_list", "log_likelihood_history_list")
+
+
+def _const(node):
+    """Keyword constant of a Fitness(...) call: bool, number, +-np.inf, +-float("inf"); else fail closed."""
+    if isinstance(node, ast.Constant) and isinstance(node.value, (bool, int, float)):
+        return node.value
+    if isinstance(node, ast.UnaryOp) and isinstance(node.op, ast.USub):
+        v = _const(node.operand)
+        return -v
+    if T._dotted(node) in ("np.inf", "numpy.inf", "math.inf"):
+        return INF
+    if isinstance(node, ast.Call) and T._dotted(node.func) == "float" and len(node.args) == 1 \
+            and isinstance(node.args[0], ast.Constant) and str(node.args[0].value).lower() in ("inf", "infinity"):
+        return INF
+    raise T.TranslationError("Fitness wiring: keyword value not a constant: %s" % ast.dump(node)[:80])
+
+
+def wiring(repo):
+    """Every `Fitness(...)` / `FitnessPySwarms(...)` construction below non_linear/search: the flags and the resample
+    value the search designates.  -> [(relative file, pyswarms class?, like, resample, chi2)]"""
+    out = []
+    root = os.path.join(repo, SEARCH_DIR)
+    for dp, _, files in sorted(os.walk(root)):
+        for f in sorted(files):
+            if not f.endswith(".py"):
+                continue
+            rel = os.path.relpath(os.path.join(dp, f), root)
+            tree = ast.parse(open(os.path.join(dp, f)).read())
+            k = 0
+            for n in sorted((n for n in ast.walk(tree) if isinstance(n, ast.Call)), key=lambda n: (n.lineno, n.col_offset)):
+                name = (T._dotted(n.func) or "").split(".")[-1]
+                if name not in ("Fitness", "FitnessPySwarms"):
+                    continue
+                kw = {k_.arg: k_.value for k_ in n.keywords}
+                if n.args or None in kw or "model" not in kw or "analysis" not in kw:
+                    raise T.TranslationError("Fitness wiring in %s: call shape not understood" % rel)
+                like = _const(kw["fom_is_log_likelihood"]) if "fom_is_log_likelihood" in kw else True
+                res = _const(kw["resample_figure_of_merit"]) if "resample_figure_of_merit" in kw else -INF
+                chi2 = _const(kw["convert_to_chi_squared"]) if "convert_to_chi_squared" in kw else False
+                if not (isinstance(like, bool) and isinstance(chi2, bool)) or isinstance(res, bool):
+                    raise T.TranslationError("Fitness wiring in %s: flag types not understood" % rel)
+                out.append((rel if k == 0 else "%s#%d" % (rel, k), name == "FitnessPySwarms", like, float(res), chi2))
+                k += 1
+    if not out:
+        raise T.TranslationError("no Fitness construction found below %s" % SEARCH_DIR)
+    return out
+
+
+def _history_untouched_elsewhere(tree, clsname, allowed):
+    """Fail closed when anything but the understood statements mentions a history list inside class `clsname`:
+    allowed = set of id(node) of the creation assignments' targets and the receivers of the .append calls."""
+    cls = T.find_function(tree, clsname)
+    for n in ast.walk(cls):
+        if isinstance(n, ast.Attribute) and n.attr in HIST_ATTRS and id(n) not in allowed:
+            raise T.TranslationError("%s line %d: history list used in a way the model does not know" % (clsname, n.lineno))
+        if isinstance(n, ast.Constant) and isinstance(n.value, str) and n.value in HIST_ATTRS:
+            raise T.TranslationError("%s line %d: history list addressed by name (state dict / getattr)" % (clsname, n.lineno))
+
+
+def _history_nodes(fn):
+    """ids of the Attribute nodes of `self.<list>.append(...)` receivers and of `self.<list> = []` targets in fn."""
+    ids = set()
+    for n in ast.walk(fn):
+        if isinstance(n, ast.Call) and isinstance(n.func, ast.Attribute) and n.func.attr == "append" \
+                and isinstance(n.func.value, ast.Attribute) and n.func.value.attr in HIST_ATTRS:
+            ids.add(id(n.func.value))
+        if isinstance(n, ast.Assign) and len(n.targets) == 1 and isinstance(n.targets[0], ast.Attribute) \
+                and n.targets[0].attr in HIST_ATTRS and isinstance(n.value, ast.List) and not n.value.elts:
+            ids.add(id(n.targets[0]))
+    return ids
 
 
 def regenerate(repo=None):
@@ -173,11 +277,21 @@ def regenerate(repo=None):
     text += "\n(* implementation traits read off the source (see harness/vcheck/c04.py:traits) *)\n"
     for k in sorted(tr):
         text += "Definition %s : bool := %s.\n" % (k, "true" if tr[k] else "false")
+    w = wiring(repo)
+    text += ("\n(* how every search constructs its fitness (see harness/vcheck/c04.py:wiring):\n"
+             "   file below autofit/non_linear/search, (FitnessPySwarms?, fom_is_log_likelihood, resample_figure_of_merit,\n"
+             "   convert_to_chi_squared) *)\n"
+             "From Coq Require Import String List.\nImport ListNotations.\n"
+             "Definition wiring : list (string * (bool * bool * float * bool)) :=\n [\n")
+    text += ";\n".join('  ("%s"%%string, (%s, %s, %s, %s))' % (f, cbool(ps), cbool(like), cfloat(res), cbool(chi2))
+                       for f, ps, like, res, chi2 in w)
+    text += "\n ].\n"
     old = open(GEN).read() if os.path.exists(GEN) else None
     if old != text:
         with open(GEN, "w") as f:
             f.write(text)
     infos["__traits__"] = tr
+    infos["__wiring__"] = w
     return infos
 
 
@@ -324,7 +438,9 @@ def gen_model(rng, allow_empty):
                 pr = priors[l["p"]]
                 r = {"c": hx(inside(rng, pr))}
             # an assertion lives on the root collection or on one component model
-            asserts.append({"at": rng.choice([-1] + list(range(len(comps)))), "op": rng.choice(["lt", "le", "gt", "ge"]),
+            # an assertion lives on the root collection (-1), the intermediate collection `sub` (-2) or one component model
+            places = [-1] + list(range(len(comps))) + ([-2, -2] if any(cp["path"][0] == "sub" for cp in comps) else [])
+            asserts.append({"at": rng.choice(places), "op": rng.choice(["lt", "le", "gt", "ge"]),
                             "l": l, "r": r})
     return {"priors": priors, "comps": comps, "asserts": asserts}
 
@@ -352,6 +468,7 @@ def gen_script(rng, md):
 
 
 CTOR_VIA_CALL = [False]     # set by run() from the regenerated traits
+WIRING = [[]]               # set by run() from the regenerated wiring table
 
 
 def gen_case(rng, forced=None):
@@ -360,36 +477,52 @@ def gen_case(rng, forced=None):
     md = gen_model(rng, allow_empty=not ps)
     n = len(md["priors"])
     fl = forced.get("flags") or {"like": rng.random() < 0.5, "chi2": rng.random() < 0.5, "store": rng.random() < 0.6}
-    container = rng.choice(["list", "nd"])
+    container = rng.choice(["list", "nd"] if ps else ["list", "list", "nd", "nd", "tuple"])
     wrong_len = n > 0 and rng.random() < 0.04
     shorter = wrong_len and not ps and n > 1 and rng.random() < 0.5
     nbuf = rng.randint(1, 4)
+    long_run = bool(forced.get("long"))
+    if long_run:
+        nbuf = 4
 
-    def vec():
+    def vec(length=None):
         v = gen_vector(rng, md, "valid" if rng.random() < 0.6 else "mixed")
         if wrong_len:
             v = v[:-1] if shorter else v + [0.5]
+        if length is not None:
+            v = (v + [0.5] * length)[:length]
         return v
     buffers = [vec() for _ in range(nbuf)]
+    if not ps and n > 0 and not wrong_len and nbuf > 1 and rng.random() < 0.04:
+        buffers[rng.randrange(nbuf)].append(0.5)        # one proposal of the wrong length among good ones
     ops = []
-    for _ in range(rng.randint(1, 12)):
+    for _ in range(300 if long_run else rng.randint(1, 12)):
         r = rng.random()
         if r < 0.28 and ops:
             b = rng.randrange(nbuf)
             # bias towards overwriting a buffer that was just used
-            used = [o[1] for o in ops if o[0] == "call"]
+            used = [o[1] for o in ops if o[0] == "call"] + [x for o in ops if o[0] == "batch" for x in o[1]]
             if used and rng.random() < 0.6:
                 b = rng.choice(used)
-            new = vec()
+            new = vec(len(buffers[b]))                   # in place: the length of a buffer never changes
             ops.append(["write", b, [hx(x) for x in new]])
+        elif r < 0.32 and ops:
+            ops.append(["pickle"])                       # what a pooled search does with its fitness
         elif ps and r < 0.75 and n > 0:
-            ops.append(["batch", [rng.randrange(nbuf) for _ in range(rng.randint(1, 4))]])
+            k = rng.randint(1, min(4, nbuf))
+            if rng.random() < 0.6:
+                a = rng.randint(0, nbuf - k)
+                ops.append(["batch", list(range(a, a + k))])       # a slice of the position array
+            else:
+                ops.append(["batch", [rng.randrange(nbuf) for _ in range(rng.randint(1, 4))]])
         else:
             if ops and ops[-1][0] == "call" and rng.random() < 0.25:
                 ops.append(["call", ops[-1][1]])       # repeated evaluation
             else:
                 ops.append(["call", rng.randrange(nbuf)])
     resample = rng.choice([-INF, -INF, -1e99, 1e99, -1.0e10, rfloat(rng), NAN if rng.random() < 0.3 else -INF])
+    if "resample" in forced:
+        resample = forced["resample"]
     script = gen_script(rng, md)
     if n > 0 and not wrong_len and rng.random() < 0.05:
         # infinite likelihood meeting an infinite prior term: the posterior is nan although the likelihood is not
@@ -404,7 +537,12 @@ def gen_case(rng, forced=None):
             if o[0] == "write":
                 o[2][0] = hx(0.0 if rng.random() < 0.6 else 1.5)
     case = {"ps": ps, "flags": fl, "resample": hx(resample), "container": container, "defaults": rng.random() < 0.5, "model": md,
-            "script": script, "buffers": [[hx(x) for x in b] for b in buffers], "ops": ops}
+            "script": script, "buffers": [[hx(x) for x in b] for b in buffers], "ops": ops,
+            "ints": (not ps) and container != "nd" and rng.random() < 0.15,
+            "jax": rng.random() < 0.06}
+    if forced.get("wired"):
+        case["wired"] = forced["wired"]
+        case["jax"] = False
     if not ps and (fl["like"] or not CTOR_VIA_CALL[0]) and rng.random() < forced.get("ctor_p", 0.2):
         # constructed with the paths of a resumed fit: the stored best vector is a successfully evaluating vector and the
         # stored value is what the constructor compares with (the log likelihood; the figure of merit when the sanity
@@ -431,6 +569,13 @@ def gen_cases(ctx):
                 for store in (True, False):
                     for _ in range(4 if ctx.tier != "thorough" else 20):
                         cases.append(gen_case(rng, {"ps": ps, "flags": {"like": like, "chi2": chi2, "store": store}}))
+    # every search's own wiring (flags and designated resample value as regenerated from its source)
+    for f, wps, like, res, chi2 in WIRING[0]:
+        for _ in range(3 if ctx.tier != "thorough" else 12):
+            cases.append(gen_case(rng, {"ps": wps, "flags": {"like": like, "chi2": chi2, "store": rng.random() < 0.5},
+                                        "resample": res, "wired": f}))
+    # one long run: hundreds of evaluations through one fitness object
+    cases.append(gen_case(rng, {"ps": False, "flags": {"like": False, "chi2": True, "store": True}, "long": True, "ctor_p": 0.0}))
     while len(cases) < n:
         cases.append(gen_case(rng))
     return cases
@@ -443,16 +588,18 @@ CLS_ALIAS = "history-aliases-caller-buffer"
 CLS_INPLACE = "inplace-chi2-on-boxed-likelihood"
 CLS_PSHIST = "pyswarms-ignores-store-history"
 CLS_CTOR = "resumed-paths-sanity-check-with-store-history"
+CLS_JAX = "use-jax-skips-limits"
 
 
 def slots_of(md):
     return [o for comp in md["comps"] for _, o in comp["attrs"]]
 
 
-def gate(md, vec):
-    for p, v in zip(md["priors"], vec):
-        if not (unhex(p["lo"]) <= v <= unhex(p["hi"])):
-            return "limit"
+def gate(md, vec, skip_limits=False):
+    if not skip_limits:
+        for p, v in zip(md["priors"], vec):
+            if not (unhex(p["lo"]) <= v <= unhex(p["hi"])):
+                return "limit"
     for a in md["asserts"]:
         if not holds(a, vec):
             return "assert"
@@ -471,12 +618,12 @@ def script_value(sc, vals):
     return ("ret", acc)
 
 
-def evaluate(c, vec):
+def evaluate(c, vec, skip_limits=False):
     """-> ('esc',) | ('resample', why) | ('ok', ll)   -- the user's likelihood of the instance of vec"""
     md = c["model"]
     if len(vec) != len(md["priors"]):
         return ("esc",)
-    g = gate(md, vec)
+    g = gate(md, vec, skip_limits)
     if g:
         return ("resample", g)
     r = script_value(c["script"], [opv(o, vec) for o in slots_of(md)])
@@ -497,16 +644,17 @@ def prior_sum(lp, vec):
     raise KeyError("no sum oracle for %s" % terms)
 
 
-def expected(c, lp):
+def expected(c, lp, skip_limits=False):
     """Replays the op sequence: expected outputs per op, expected history (by value), bookkeeping
-    for failure classification.  -> dict"""
+    for failure classification.  -> dict.  skip_limits: not the property but the behaviour with the limit
+    checks switched off (used only to decide whether a failure is the USE_JAX finding)."""
     fl, ps, r = c["flags"], c["ps"], unhex(c["resample"])
     heap = [[unhex(x) for x in b] for b in c["buffers"]]
-    outs, hist, kinds = [], [], []
+    outs, hist, kinds, op_kinds = [], [], [], []
     hist_src = []       # (op index, buffer index) of every expected history entry
 
     def one(vec):
-        e = evaluate(c, vec)
+        e = evaluate(c, vec, skip_limits)
         kinds.append(e[0] if e[0] != "resample" else e[1])
         if e[0] == "esc":
             return "esc", None
@@ -530,13 +678,17 @@ def expected(c, lp):
     for t, op in enumerate(c["ops"]):
         if op[0] == "write":
             heap[op[1]] = [unhex(x) for x in op[2]]
+        if op[0] in ("write", "pickle"):
             outs.append([])
+            op_kinds.append([])
             continue
         bs = [op[1]] if op[0] == "call" else op[1]
         row, escaped = [], False
+        op_kinds.append([])
         for b in bs:
             vec = list(heap[b])
             f, ll = one(vec)
+            op_kinds[-1].append(kinds[-1])
             if f == "esc":
                 escaped = True
                 break
@@ -545,14 +697,50 @@ def expected(c, lp):
                 hist.append(([hx(x) for x in vec], hx(ll)))
                 hist_src.append((t, b))
         outs.append("esc" if escaped else row)
-    return {"outs": outs, "hist": hist, "hist_src": hist_src, "kinds": kinds}
+    return {"outs": outs, "hist": hist, "hist_src": hist_src, "kinds": kinds, "op_kinds": op_kinds}
 
 
-def oracle(c, r, exp):
+BIG = 1e99
+
+
+def wired_label(c):
+    f = c["wired"]
+    return "wired-resample:" + ("bfgs" if f.startswith("mle/bfgs/") else f)
+
+
+def oracle(c, r, exp, lp):
     """-> list of (message, classes).  Empty list = the implementation satisfies C04 on this case."""
+    fails = oracle_values(c, r, exp)
+    if fails and c.get("jax"):
+        # the USE_JAX finding: what was observed is exactly the behaviour with the limit checks switched off
+        try:
+            if not oracle_values(c, r, expected(c, lp, skip_limits=True)):
+                fails = [(m + " [USE_JAX=1]", [CLS_JAX]) for m, _ in fails]
+        except KeyError:
+            pass
+    if c.get("wired") and not r.get("ctor_raised"):
+        # the designated resample value must be on the bad side of the direction the search optimises
+        for t, (ks, got) in enumerate(zip(exp["op_kinds"], r["out"])):
+            for k, g in zip(ks, got):
+                if k in ("ok", "esc") or "v" not in g:
+                    continue
+                v = unhex(g["v"])
+                bad = not (v >= BIG) if c["flags"]["chi2"] else not (v <= -BIG)
+                if bad:
+                    fails.append(("op %d: %s receives %r for a vector it must resample although it %s its figure of merit"
+                                  % (t, c["wired"], v, "minimises" if c["flags"]["chi2"] else "maximises"), [wired_label(c)]))
+                    break
+            else:
+                continue
+            break
+    return fails
+
+
+def oracle_values(c, r, exp):
     fails = []
     if r.get("ctor_raised"):
-        cls = [CLS_CTOR] if (c.get("ctor") and c["flags"]["store"]) else []
+        cls = [CLS_CTOR] if (c.get("ctor") and c["flags"]["store"] and r["ctor_raised"]["esc"] == "AttributeError"
+                             and "history_list" in r["ctor_raised"]["msg"]) else []
         return [("constructing the fitness for a resumed fit raised %s: %s" % (r["ctor_raised"]["esc"], r["ctor_raised"]["msg"]), cls)]
     if not (r["ids_ascending"] and r["ordered_is_creation"] and r["prior_count"] == len(c["model"]["priors"])):
         fails.append(("abstraction: priors_ordered_by_id is not the creation order of the generated priors", []))
@@ -624,10 +812,10 @@ def cres(g):
 def coq_case(c, r):
     md, sc, fl = c["model"], c["script"], c["flags"]
     flags = "{| fl_like := %s; fl_chi2 := %s; fl_store := %s |}" % (cbool(fl["like"]), cbool(fl["chi2"]), cbool(fl["store"]))
-    model = "(Build_model %s %s %s)" % (
+    model = "(Build_model %s %s %s %s)" % (
         clist([cpair(cf(p["lo"]), cf(p["hi"])) for p in md["priors"]]),
         clist([coperand(o) for o in slots_of(md)]),
-        clist([cassert(a) for a in md["asserts"]]))
+        clist([cassert(a) for a in md["asserts"]]), cbool(bool(c.get("jax"))))
 
     def rule(x):
         return copt(x, lambda v: cpair(cnat(v[0]), cf(v[1])))
@@ -642,6 +830,8 @@ def coq_case(c, r):
             ops.append("OCall %s" % cnat(op[1]))
         elif op[0] == "write":
             ops.append("OWrite %s %s" % (cnat(op[1]), clist([cf(x) for x in op[2]])))
+        elif op[0] == "pickle":
+            ops.append("OPickle")
         else:
             ops.append("OBatch %s" % clist([cnat(b) for b in op[1]]))
     outs = clist([clist([cres(g) for g in row]) for row in r["out"]])
@@ -689,7 +879,9 @@ def run(ctx):
     try:
         infos = regenerate()
         tr = infos.pop("__traits__")
+        WIRING[0] = infos.pop("__wiring__")
         CTOR_VIA_CALL[0] = tr["impl_ctor_via_call"]
+        ctx.notes["wiring"] = [list(w) for w in WIRING[0]]
         ctx.translated = {k: {"source": v["source"], "line": v["line"]} for k, v in infos.items()}
         ctx.translated["traits"] = tr
         ctx.obligation("translator:Gen.v", "translator", True, "%d expressions, traits %s" % (len(infos), tr))
@@ -711,7 +903,10 @@ def run(ctx):
             cases = [rp["case"]]
     nshard = 1 if len(cases) < 200 else common.NCPU
     chunks = [cases[i::nshard] for i in range(nshard)]
-    outs = common.run_impl_parallel("c04_impl", [{"cases": ch} for ch in chunks], timeout=1500)
+    # the caller's environment must not silently disable what is being checked (PYAUTOFIT_TEST_MODE=1 skips the
+    # constructor's sanity check; USE_JAX=1 makes `import autofit` demand jax -- the jax path is exercised per case)
+    outs = common.run_impl_parallel("c04_impl", [{"cases": ch} for ch in chunks], timeout=1500,
+                                    extra_env={"PYAUTOFIT_TEST_MODE": "0", "USE_JAX": "0"})
     results = [None] * len(cases)
     for k, (ch, o) in enumerate(zip(chunks, outs)):
         if "__error__" in o:
@@ -728,7 +923,14 @@ def run(ctx):
             ctx.failure("oracle", "driver raised %s: %s" % (r["exc"], r.get("msg")), c, impl=r)
             continue
         r = r["ok"]
-        exp = expected(c, (r["lp"], r["sums"]))
+        lp = (r["lp"], r["sums"])
+        try:
+            exp = expected(c, lp)
+        except KeyError as e:
+            ctx.count_case(c, False, "oracle-table-incomplete")
+            ctx.oracle["failures"] += 1
+            ctx.failure("oracle", "oracle tables of the driver lack an entry the property needs: %s" % e, c, impl=r)
+            continue
         ctx.count_case(c, "ok" in exp["kinds"], "pyswarms" if c["ps"] else "fitness")
         fl = c["flags"]
         ctx.hist("flags", "%s/%s/%s" % ("like" if fl["like"] else "post", "chi2" if fl["chi2"] else "raw",
@@ -742,7 +944,11 @@ def run(ctx):
         ctx.hist("writes", sum(1 for o in c["ops"] if o[0] == "write"))
         ctx.hist("assertions", len(c["model"]["asserts"]))
         ctx.hist("constructed-with-resumed-paths", bool(c.get("ctor")))
-        fails = oracle(c, r, exp)
+        ctx.hist("use-jax", bool(c.get("jax")))
+        ctx.hist("int-entries", bool(c.get("ints")))
+        ctx.hist("pickle-round-trips", sum(1 for o in c["ops"] if o[0] == "pickle"))
+        ctx.hist("wired-as", c.get("wired", "-"))
+        fails = oracle(c, r, exp, lp)
         verdicts[i] = fails
         for msg, classes in fails:
             ctx.oracle["failures"] += 1
